@@ -3,7 +3,7 @@
    concurrent submitters, any jobs, Release; [reachable W Q s] = s is reached from the initial state by SOME label sequence, so
    every theorem below is about all schedules). *)
 From Coq Require Import List Arith NArith Permutation.
-From TarsV Require Import Conc.Gpool Conc.GpoolProofs Conc.GpoolLive Conc.GpoolFair.
+From TarsV Require Import Conc.Gpool Conc.GpoolProofs Conc.GpoolLive Conc.GpoolFair Conc.GpoolEventually.
 Import ListNotations.
 
 (* no job is handed to a worker twice; what has been handed over is exactly what occupies a worker or has finished *)
@@ -69,9 +69,21 @@ Theorem C19_release_returns : forall W Q s, 1 <= W -> reachable W Q s -> rp s <>
      length ls <= measure s /\ (quiescent W Q s' -> rp s' = RDone)).
 Proof. exact GpoolLive.release_returns. Qed.
 
-(* one job while other submitters keep sending (the pool never becomes quiescent): the premises of the weak-fairness rule for
-   "every submitted job is eventually run", for the rank [mu j] (position in the FIFO queue, then the job's own three steps).
-   Full statement over infinite fair executions: NOT formalised (the model has finite executions only). *)
+(* "every job submitted is executed" at full strength: in every INFINITE execution (submitters may go on sending for ever) that
+   is weakly fair to the goroutines of the pool and to running jobs (an internal step enabled at some index is later taken or
+   not enabled) and in which the dispatcher never accepts a Release, every job sent has finished at some later index *)
+Theorem C19_every_job_eventually_runs : forall W Q (σ : nat -> st) (λ : nat -> label),
+  execution W Q σ λ -> (forall n, λ n <> RelCall) -> pre_release (dp (σ 0)) = true -> 1 <= W -> weakly_fair W Q σ λ ->
+  forall j n, In j (subm (σ n)) -> exists m, n <= m /\ In j (fin (σ m)).
+Proof. exact GpoolEventually.eventually_finished. Qed.
+(* the hypotheses are satisfiable for every W >= 1 and Q: a scheduler that runs the pool to quiescence, then lets a submitter go on *)
+Theorem C19_fair_execution_exists : forall W Q, 1 <= W ->
+  execution W Q (sst W Q) (slab W Q) /\ (forall n, slab W Q n <> RelCall) /\ pre_release (dp (sst W Q 0)) = true /\
+  weakly_fair W Q (sst W Q) (slab W Q).
+Proof. exact GpoolEventually.fair_execution_exists. Qed.
+
+(* the ingredients (premises of the weak-fairness rule) for the rank [mu j]: position in the FIFO queue, distance of the
+   dispatcher and the workers from taking it, then the job's own three steps *)
 Theorem C19_rank_zero_iff_finished : forall s j, mu j s = 0 <-> In j (fin s).
 Proof. exact GpoolFair.mu_zero_iff. Qed.
 (* (a) before the dispatcher accepts Release, no step of anybody — in particular no later submit — moves j away from completion *)
@@ -138,6 +150,8 @@ Print Assumptions C19_progress.
 Print Assumptions C19_every_schedule_completes.
 Print Assumptions C19_blocked_submit_gets_room.
 Print Assumptions C19_release_returns.
+Print Assumptions C19_every_job_eventually_runs.
+Print Assumptions C19_fair_execution_exists.
 Print Assumptions C19_rank_zero_iff_finished.
 Print Assumptions C19_rank_nonincreasing.
 Print Assumptions C19_helpful_step_enabled.
